@@ -115,12 +115,12 @@ pub fn record(args: &Args) {
             Ok(stdout) => {
                 for line in stdout.lines() {
                     if let Some(x) = line.strip_prefix("unweighted model count: ") {
-                        ev["mc"] = json!(x.trim().parse::<u64>().map(|v| json!(v)).unwrap_or(json!(x.trim())));
+                        ev["mc"] = x.trim().parse::<u32>().map(|v| json!(v)).unwrap_or_else(|_| num(f64::NAN));
                     }
                     if let Some(x) = line.strip_prefix("weighted model count: ") {
                         let v: f64 = x.trim().parse().unwrap_or(f64::NAN);
                         let scaled = v * 8f64.powi(all.len() as i32);
-                        ev["wmc"] = if scaled.is_finite() && scaled.fract() == 0.0 && scaled.abs() < 2e9 { json!(scaled as i64) } else { json!(x.trim()) };
+                        ev["wmc"] = num(scaled);
                     }
                 }
             }
